@@ -257,8 +257,10 @@ def explore(ctx):
             ctx.klass("a master without any kerning")
         # always: values whose blend at t = 1/2 (and 1/4) is an exact half with an EVEN floor and with an odd one, positive and
         # negative (102.5, 103.5, -23.5 ...): rounding is half-up (otRound), not half-to-even
+        tie_glyph = None
         for g0, g1 in zip(masters[0]["glyphs"], masters[1]["glyphs"]):
             if g0["contours"] and not frac:
+                tie_glyph = g0["name"]
                 (x0, y0, t0), (x1, y1, t1) = g0["contours"][0][0], g1["contours"][0][0]
                 g0["contours"][0][0], g1["contours"][0][0] = (Fr(100), Fr(-24), t0), (Fr(105), Fr(-23), t1)
                 if len(g0["contours"][0]) > 1:
@@ -305,6 +307,23 @@ def explore(ctx):
             for n in names:
                 if list(f[n].unicodes) != list(fonts[0][n].unicodes):
                     ctx.spec_failure(case, "instance glyph %r has code points %r, default source %r" % (n, f[n].unicodes, fonts[0][n].unicodes))
+        if tie_glyph is not None and not rnd and len(base["glyphs"][[g["name"] for g in base["glyphs"]].index(tie_glyph)]["contours"][0]) > 1:
+            # a location whose normalised coordinate, 3/10, is NOT a multiple of 1/16384 (what a variable font could store): the
+            # instance sits at the location asked for, so without rounding 500 -> 505 gives 501.5, 100 -> 105 gives 101.5 and
+            # 101 -> 106 gives 102.5, up to floating-point noise (1e-9; a location snapped to 2.14 is off by 6e-5 here)
+            d = InstanceDescriptor()
+            d.familyName, d.styleName, d.location = "Fam", "I340", {"Weight": 340}
+            case = {"font": jsonable(base), "master1": jsonable(masters[1]), "location": 340, "round_geometry": rnd, "lib": lib}
+            ctx.count(); ctx.klass("instance:t=3/10 (not representable in 2.14)/round=False"); ctx.nontriv(("inst340", i, ctx.scale))
+            try:
+                f = inst.generate_instance(d)
+                pts = [(p.x, p.y) for c in f[tie_glyph] for p in c][:2]
+                got = (f[tie_glyph].width, pts[0][0], pts[1][0])
+                if any(abs(a_ - b_) > 1e-9 for a_, b_ in zip(got, (501.5, 101.5, 102.5))):
+                    ctx.spec_failure(dict(case, glyph=tie_glyph), "at t = 3/10 glyph %r has (advance, x of point 0, x of point 1) = %r; the linear blend is "
+                                                                 "(501.5, 101.5, 102.5)" % (tie_glyph, got))
+            except Exception as e:
+                ctx.spec_failure(case, "generate_instance raised %s: %s\n%s" % (type(e).__name__, e, traceback.format_exc()[-800:]))
         after = [snap.font_snapshot(f) for f in fonts]
         if before != after:
             ctx.spec_failure({"font": jsonable(base)}, "generating instances altered the sources: %s" % "; ".join(snap.diff(before, after)[:3]))
